@@ -29,6 +29,29 @@ pub struct VerifKadDump {
     pub local_providers: Vec<Vec<u8>>,
     /// Number of armed provider refresh timers of the store.
     pub refresh_timers: usize,
+    /// Full content of the local store (unordered maps).
+    pub store: VerifStoreDump,
+}
+
+/// Everything the `MemoryStore` of the loop holds.
+#[derive(Debug, Clone, Default)]
+pub struct VerifStoreDump {
+    /// `records`.
+    pub records: Vec<Record>,
+    /// `provider_keys`: the provider lists in stored order.
+    pub provider_keys: Vec<(RecordKey, Vec<store::VerifProviderRecord>)>,
+    /// `local_providers`.
+    pub local_providers: Vec<(RecordKey, ContentProvider, Quorum)>,
+    /// Number of futures in `pending_provider_refresh`.
+    pub pending_refresh: usize,
+}
+
+/// A `RefreshProvider` action the `store.next_action()` arm of the loop received.
+#[derive(Debug, Clone)]
+pub struct VerifRefresh {
+    pub key: RecordKey,
+    pub provider: ContentProvider,
+    pub quorum: Quorum,
 }
 
 /// One node of a k-bucket as the routing table stores it.
@@ -56,11 +79,25 @@ pub enum VerifProbeEntry {
 #[derive(Clone, Default)]
 pub struct VerifProbe {
     inner: StdArc<parking_lot::Mutex<Vec<VerifProbeEntry>>>,
+    refreshes: StdArc<parking_lot::Mutex<Vec<VerifRefresh>>>,
+    age_request: StdArc<parking_lot::Mutex<std::time::Duration>>,
 }
 
 impl VerifProbe {
     pub fn take(&self) -> Vec<VerifProbeEntry> {
         std::mem::take(&mut *self.inner.lock())
+    }
+
+    /// The `RefreshProvider` actions `store.next_action()` yielded to the loop since the last
+    /// call, in order.
+    pub fn take_refreshes(&self) -> Vec<VerifRefresh> {
+        std::mem::take(&mut *self.refreshes.lock())
+    }
+
+    /// Ask the loop to let `by` of logical time pass for its store (`MemoryStore::verif_age`) the
+    /// next time it is about to wait in `select!`, before the snapshot is taken.
+    pub fn request_store_age(&self, by: std::time::Duration) {
+        *self.age_request.lock() += by;
     }
 }
 
@@ -95,8 +132,26 @@ impl Kademlia {
         probe.inner.lock().push(VerifProbeEntry::Action { kind, query, peers });
     }
 
+    pub(super) fn verif_note_refresh(
+        &mut self,
+        key: &RecordKey,
+        provider: &ContentProvider,
+        quorum: Quorum,
+    ) {
+        let Some(probe) = &self.verif_probe else { return };
+        probe.refreshes.lock().push(VerifRefresh {
+            key: key.clone(),
+            provider: provider.clone(),
+            quorum,
+        });
+    }
+
     pub(super) fn verif_at_select(&mut self) {
         let Some(probe) = &self.verif_probe else { return };
+        let age = std::mem::take(&mut *probe.age_request.lock());
+        if !age.is_zero() {
+            self.store.verif_age(age);
+        }
         let dump = VerifKadDump {
             pending_dials: self
                 .pending_dials
@@ -154,6 +209,19 @@ impl Kademlia {
                 .map(|key| key.to_vec())
                 .collect(),
             refresh_timers: self.store.verif_refresh_timers(),
+            store: VerifStoreDump {
+                records: self.store.verif_records().values().cloned().collect(),
+                provider_keys: self
+                    .store
+                    .verif_provider_keys()
+                    .iter()
+                    .map(|(key, providers)| {
+                        (key.clone(), providers.iter().map(store::VerifProviderRecord::from).collect())
+                    })
+                    .collect(),
+                local_providers: self.store.verif_local_providers_full(),
+                pending_refresh: self.store.verif_pending_refresh_len(),
+            },
         };
         probe.inner.lock().push(VerifProbeEntry::AtSelect(dump));
     }
